@@ -164,6 +164,22 @@ def build():
         raise GenError("nsec3_hash: iteration digest is %s" % m.group(2))
     defs.append(("hash_iter_from", "N", N(int(m.group(1)))))
     defs.append(("hash_salt_after_data", "bool", B(True)))
+    # ---------------------------------------------------------- record equality used by SortedRecords' dedup
+    rd = strip_comments(read("src/base/rdata.rs"))
+    ib = impl_body(rd, r"impl<Octs,\s*Other>\s+PartialEq<UnknownRecordData<Other>>\s+for\s+UnknownRecordData<Octs>\s+where[^{]*\{")
+    eq = fn_body(ib, "eq")
+    if re.fullmatch(r"\s*self\.data\.as_ref\(\)\.eq\(\s*other\.data\.as_ref\(\)\s*\)\s*", eq):
+        defs.append(("unknown_eq_checks_rtype", "bool", B(False)))
+    elif re.fullmatch(r"\s*self\.rtype\s*==\s*other\.rtype\s*&&\s*self\.data\.as_ref\(\)\.eq\(\s*other\.data\.as_ref\(\)\s*\)\s*", eq):
+        defs.append(("unknown_eq_checks_rtype", "bool", B(True)))
+    else:
+        raise GenError("UnknownRecordData::eq: unrecognised body %r" % eq.strip())
+    sr = strip_comments(read("src/dnssec/sign/records.rs"))
+    ex = fn_body(sr, "extend", after="impl<N, D, Sort> Extend<Record<N, D>> for SortedRecords<N, D, Sort>")
+    one(r"Sort::sort_by\(\s*&mut\s+self\.records\s*,\s*CanonicalOrd::canonical_cmp\s*\)\s*;\s*self\.records\.dedup\(\)\s*;", ex, "SortedRecords::extend sort+dedup")
+    rc = strip_comments(read("src/base/record.rs"))
+    rb = impl_body(rc, r"impl<N,\s*NN,\s*D,\s*DD>\s+PartialEq<Record<NN,\s*DD>>\s+for\s+Record<N,\s*D>\s+where[^{]*\{")
+    one(r"self\.owner\s*==\s*other\.owner\s*&&\s*self\.class\s*==\s*other\.class\s*&&\s*self\.data\s*==\s*other\.data", fn_body(rb, "eq"), "Record::eq")
     return defs
 
 if __name__ == "__main__":
